@@ -10,15 +10,16 @@ every single operation.  Aliasing is decided observably: the argument is poisone
 holds may move; the `signal` monitor (np.shares_memory on every base add_sensitivity) runs on top.
 
 Families
-  enum    every sequence of L operations from a 14-letter alphabet on a tiny 2-signal world
+  enum    every sequence of L operations from a 15-letter alphabet on a tiny 2-signal world
           (exhaustive: all interleavings of add / slice add / fancy add / nested add / three resets /
-          slice reset / assignments / pass-through / shared object), 8 world variants
+          slice reset / whole, slice and nested assignments / pass-through / shared object), 8 world variants
   rand    random histories (10–60 operations) on 1–3 signals of rank 1–4, real/complex, with and
           without pre-allocated sensitivity, all index kinds, hostile argument kinds
   scalar  signals holding Python / numpy scalars and 0-d arrays (whole-signal operations)
   kinds   aliasing clause on the non-array values pyMOTO itself passes around (DyadCarrier, sparse)
 """
 import itertools
+import threading
 
 import numpy as np
 
@@ -29,7 +30,7 @@ LEVEL = "exploration"
 MONITORS = ["signal"]
 ANCHORS = ["core_objects.py"]
 RULE = ("enum: one case = (world variant, first operation[, second operation]) running every completion to length "
-        "L (quick 3, thorough 4) over the 14-operation alphabet — exhaustive; rand: one case = 6 random histories of "
+        "L (quick 3, thorough 4) over the 15-operation alphabet — exhaustive; rand: one case = 6 random histories of "
         "10–60 operations (seeded by VERIF_SEED) on 1–3 signals of one shape/dtype; scalar/kinds: random histories on "
         "scalar-valued signals / DyadCarrier+sparse values. distinct = family × rank × dtype × number of signals × "
         "pre-allocation pattern (enum: variant × prefix); non-trivial = at least one slice accumulation, one reset and "
@@ -65,7 +66,7 @@ FLOORS = {
 }
 TIMEOUT_CASE = 300
 
-ALPHABET = ["A", "S", "F", "N", "R", "RT", "RF", "RS", "W", "WS", "X", "XW", "P", "D"]
+ALPHABET = ["A", "S", "F", "N", "R", "RT", "RF", "RS", "W", "WS", "X", "XN", "XW", "P", "D"]
 ENUM_VARIANTS = [(sh, c, p) for sh in ((3,), (2, 3)) for c in (0, 1) for p in (0, 1)]
 RAND_PER_CASE = 6
 SCALAR_KINDS = ["pyfloat", "pycomplex", "npfloat", "npcomplex", "0dreal", "0dcomplex"]
@@ -79,13 +80,13 @@ def plan(tier, seed):
         for vi in range(len(ENUM_VARIANTS)):
             for a in range(len(ALPHABET)):
                 cases.append({"fam": "enum", "var": vi, "prefix": [a], "L": 3})
-        nrand, nscal, nkind = 288, 32, 16
+        nrand, nscal, nkind = 640, 48, 16
     else:
         for vi in range(len(ENUM_VARIANTS)):
             for a in range(len(ALPHABET)):
                 for b in range(len(ALPHABET)):
                     cases.append({"fam": "enum", "var": vi, "prefix": [a, b], "L": 4})
-        nrand, nscal, nkind = 4800, 320, 80
+        nrand, nscal, nkind = 9600, 640, 160
     # interleave so that the 16 shards get a similar mix
     rnd = [{"fam": "rand", "k": i, "n": RAND_PER_CASE} for i in range(nrand)]
     rnd += [{"fam": "scalar", "k": i, "n": 12} for i in range(nscal)]
@@ -310,6 +311,10 @@ def _differs(actual, model, tol):
     return ("values", bad, {"got": a.reshape(-1)[bad[:6]], "want": model.reshape(-1)[bad[:6]]})
 
 
+_READ_SYM = {"values": "differs-from-the-base-entries", "shape": "shape", "missing": "missing",
+             "not-an-array": "not-an-array"}
+
+
 class _World:
     """1..3 base signals of one shape/dtype together with their numpy shadow model."""
 
@@ -414,7 +419,7 @@ class _World:
                 elif targets:
                     where = "changed-in-untouched-signal"
                 elif st_targets or se_targets:
-                    where = "changed-by-an-operation-on-the-other-field"
+                    where = "changed-by-a-%s-operation" % ("sensitivity" if field == "state" else "state")
                 else:
                     where = "changed"
                 self.fail(f"{op}/{field}-{where}", signal=k, index=repr(idx), positions=bad[:10],
@@ -436,7 +441,7 @@ class _World:
             P = idx.positions(self.pos)
             d = _differs(sl.state, self.mstate[k][P], 0.0)
             if d is not None:
-                self.fail(f"slice-read/state-{d[0]}", signal=k, index=repr(idx), **d[2])
+                self.fail(f"slice-read/state-{_READ_SYM[d[0]]}", signal=k, index=repr(idx), **d[2])
             got = sl.sensitivity
             if self.msens[k] is None:
                 if got is not None:
@@ -444,7 +449,7 @@ class _World:
             else:
                 d = _differs(got, self.msens[k][P], tol)
                 if d is not None:
-                    self.fail(f"slice-read/sensitivity-{d[0]}", signal=k, index=repr(idx), **d[2])
+                    self.fail(f"slice-read/sensitivity-{_READ_SYM[d[0]]}", signal=k, index=repr(idx), **d[2])
             self.ctx.count("slice_reads")
             self.ctx.count("entries_compared", 2 * P.size)
         # reading changes nothing
@@ -734,6 +739,8 @@ def _history_enum(pym, ctx, rng, variant, seq):
             w.op_sens_slice(0, ix[o])
         elif o == "X":
             w.op_state_slice(0, ix[o])
+        elif o == "XN":
+            w.op_state_slice(0, ix["N"], per["N"])
         elif o == "XW":
             w.op_state_whole(0)
         elif o == "P":
@@ -972,6 +979,27 @@ def _history_kinds(pym, ctx, rng, kind):
 
 # =========================================================================== run_case
 def run_case(case, ctx):
+    """pyMOTO calls inspect.stack() in every Signal/SignalSlice constructor. Under `python -m pmv.shard` the
+    bottom frames of the main thread are '<frozen runpy>', for which inspect takes a slow path (2.2 ms instead of
+    0.13 ms per constructor, measured). The histories are therefore executed in a worker thread (fresh, shallow
+    stack); the real code and what is observed are the same, exceptions are re-raised in the calling thread."""
+    box = {}
+
+    def work():
+        try:
+            box["res"] = _run_case(case, ctx)
+        except BaseException as e:  # noqa: BLE001 - handed to the caller unchanged
+            box["exc"] = e
+
+    th = threading.Thread(target=work, daemon=True)
+    th.start()
+    th.join()
+    if "exc" in box:
+        raise box["exc"]
+    return box["res"]
+
+
+def _run_case(case, ctx):
     import pymoto as pym
     fam = case["fam"]
     if fam == "enum":
